@@ -262,7 +262,7 @@ func Values(k Kind, thorough bool) []Val {
 	case KTime:
 		const ntp = refcodec.NTPOffset
 		for _, s := range []int64{
-			0x7fffffff - ntp, 0x80000000 - ntp, // 1968-01-20 03:14:07/08, MSB flip
+			0x80000000 - ntp, 0x80000001 - ntp, // 1968-01-20 03:14:08/09: first representable instants (MSB set, era 0)
 			0, 1, 1700000000,
 			0xffffffff - ntp, 0x100000000 - ntp, 0x100000001 - ntp, // 2036-02-07 06:28:15/16/17
 			0x17fffffff - ntp, // 2104-02-26 09:42:23, last representable
